@@ -30,7 +30,39 @@ def c12(tier, seed):
     return rel.check_rel("C12", tier, seed, 130, 3000)
 
 
-CHECKS = {"C01": c01, "C10": c10, "C11": c11, "C12": c12}
+def c04(tier, seed):
+    from . import exact
+    res = core.Result("C04", tier, seed)
+    n = 90 if tier == "quick" else 2500
+    job = exact.regex_job("C04", seed, n)
+    rejects = rel.drive_and_validate("C04", tier, seed, job, res, nshards=12 if tier == "quick" else 16,
+                                     module="Trace_Regex", timeout=900 if tier == "quick" else 7200)
+    for rj in rejects:
+        res.violation(rel.signature(rj), rj["replay"])
+    rel.negative_control("C04", res, module="Trace_Regex")
+    res.cov["rule"] = ("episodes = random walks of the real engine over a random surface regex (all operators, three entry "
+                       "points) and a small vocabulary; TLC recomputes every mask / verdict / forced byte from the regex "
+                       "by derivatives (spec/Trace_Regex.tla); distinct = distinct recorded episodes")
+    return res
+
+
+def c05(tier, seed):
+    from . import exact
+    res = core.Result("C05", tier, seed)
+    n = 100 if tier == "quick" else 3000
+    job = exact.cfg_job("C05", seed, n)
+    rejects = rel.drive_and_validate("C05", tier, seed, job, res, nshards=12 if tier == "quick" else 16,
+                                     module="Trace_Cfg", timeout=900 if tier == "quick" else 7200)
+    for rj in rejects:
+        res.violation(rel.signature(rj), rj["replay"])
+    rel.negative_control("C05", res, module="Trace_Cfg")
+    res.cov["rule"] = ("episodes = random walks of the real engine over a random / hand-written EBNF grammar of the "
+                       "non-confusable fragment and a vocabulary of tokens spanning its terminals; TLC recomputes every "
+                       "mask / verdict / forced byte with Earley item sets (spec/Cfg.tla, Trace_Cfg.tla)")
+    return res
+
+
+CHECKS = {"C04": c04, "C05": c05, "C01": c01, "C10": c10, "C11": c11, "C12": c12}
 
 
 def setup():
